@@ -53,7 +53,7 @@ def check(prog: Program, res: Result, tier: str) -> None:
         "numpy contracts: default order C for reshape/ravel/flatten/unravel_index/ravel_multi_index; transpose(x, p) semantics",
         "trusted row-helper contracts (DESIGN §1); operands well-formed (rows(subs) == rows(vals) == nnz)",
     ]
-    res.floors = {"EO-cls": 7, "EO-1": 19, "KR": 2, "INV": 1, "PS": 4, "REP": 18, "IX-cnt": 2, "IX-dom": 2}
+    res.floors = {"EO-cls": 7, "EO-1": 18, "KR": 2, "INV": 1, "PS": 4, "REP": 18, "IX-cnt": 2, "IX-dom": 2}
     for f in FUNCS:
         prog.func(f)
     sel = lambda fi: fi.short in FUNCS
